@@ -28,6 +28,8 @@ MANAGER_SECTIONS = ['Manager/' + n for n in ('create', 'delete', 'deleteForExter
     ['pkg/session/session_manager.go', 'pkg/session/session_reader.go', 'pkg/session/store_redis.go', 'pkg/session/store_memory.go', 'pkg/session/lock.go']
 HANDLER_SECTIONS = ['Handlers/' + n for n in ('getSession', 'logout', 'logoutLocal', 'logoutCallback', 'logoutFrontChannel', 'sessionInfo', 'sessionRefresh', 'sessionForwardAuth', 'handleGetSessionError', 'loginCallback', 'proxyGetSession', 'proxyHandler', 'getSessionWithValidToken', 'handleAutologin', 'proxyGetSSOServerURL', 'proxyLogin', 'proxyLoginCallback', 'proxyLogout', 'proxyLogoutCallback', 'proxyLogoutFrontChannel', 'proxyLogoutLocal', 'proxySession', 'proxySessionRefresh', 'proxySessionForwardAuth', 'proxyWildcard', 'serverLogout', 'serverLogoutFrontChannel', 'serverLogoutLocal', 'serverWildcard', 'clientLoginCallback', 'issuerIdentification', 'redeemTokens', 'stateMismatchError', 'getCookieOptions', 'login', 'applyLoginRateLimit', 'respondError', 'retryURI', 'newStandaloneRedirect', 'standaloneCanonical', 'standaloneClean', 'standaloneFallback', 'newSSOServerRedirect', 'ssoServerCanonical', 'ssoServerClean', 'newSSOProxyRedirect', 'ssoProxyCanonical', 'ssoProxyClean', 'ssoProxyFallback', 'cleanRedirect', 'redirectQueryParam', 'fallbackRedirect', 'absoluteIsValid', 'relativeIsValid', 'parsableRequestURI', 'isAllowedHost', 'isValidScheme', 'isRelativeURL', 'isValidAbsolutePath', 'isAllowedDomain', 'acrHandlerValidate', 'acrNewHandler', 'matchingIngress', 'matchingPath', 'parseIngress', 'mustScheme', 'clientLogin', 'newAuthorizationCodeParams', 'authCodeURL', 'loginSetCookie', 'authRequestParams', 'authCookie', 'parRequestParams')] + \
     ['pkg/handler/handler.go', 'pkg/handler/handler_sso_proxy.go', 'pkg/handler/handler_sso_server.go', 'pkg/handler/reverseproxy.go', 'pkg/openid/client/login_callback.go', 'pkg/openid/oauth2.go', 'pkg/handler/error.go', 'pkg/url/redirect.go', 'pkg/url/validator.go', 'pkg/handler/acr/acr.go', 'pkg/ingress/ingress.go', 'pkg/openid/client/login.go']
+ENVELOPE_SECTIONS = ['Envelope/' + n for n in ('newCrypter', 'encryptionKeyOrGenerate', 'crypterEncrypt', 'crypterDecrypt', 'cookieEncrypt', 'cookieDecrypt', 'cookieGet', 'cookieGetDecrypted', 'cookieEncryptAndSet', 'cookieSet', 'newTicket', 'ticketCrypter', 'ticketKey', 'ticketSetCookie', 'getTicket', 'encryptedDataDecrypt', 'dataEncrypt', 'dataValidate', 'sessionEncrypt', 'sessionKey', 'sessionSetCookie', 'sessionAccessToken', 'newSession')]
+PROVIDER_SECTIONS = ['Provider/' + n for n in ('newTokens', 'parseIDToken', 'idTokenValidate', 'idTokenClaim', 'idTokenStringClaim', 'idTokenSid', 'idTokenAcr', 'authCodeGrant', 'refreshGrant', 'clientAuthenticationParams', 'makeAssertion', 'oauthPostRequest', 'newLogout', 'singleLogoutURL', 'logoutSetCookie', 'newLogoutCallback', 'postLogoutRedirectURI', 'logoutStateMismatchError', 'newLogoutFrontchannel', 'frontchannelSid', 'frontchannelMissingSid')]
 HANDLER_TIE = (" Every control-flow path through the real logout / session / reverse-proxy handlers is enumerated from a statement-by-statement translation regenerated on each run (Gen/Handlers) and "
                "the kernel decides, over ALL paths, what the handler model assumes (Proofs/GenTie/Handlers): success answers only after the lookup-error guard and the delete, cookies cleared with the request's options first, "
                "the upstream token set only when the validated lookup and the ACR gate passed, and always then.")
@@ -45,8 +47,8 @@ def _merge(*ds):
 
 PROPS = {
     'C01': {
-        'proofs': ['Ww.Proofs.C01', 'Ww.Proofs.GenTie.C01', 'Ww.Proofs.GenTie.Handlers', 'Ww.Proofs.GenTie.Ingress'],
-        'gen_sections': HANDLER_SECTIONS + ['Meta', 'pkg/session/data.go', 'Dec/acrValidate', 'pkg/openid/acr/acr.go', 'Dec/sessionCanRefresh', 'Dec/sessionShouldRefresh', 'Dec/sessionYieldsToken', 'Dec/acrValidate', 'pkg/session/session.go'],
+        'proofs': ['Ww.Proofs.C01', 'Ww.Proofs.GenTie.C01', 'Ww.Proofs.GenTie.Handlers', 'Ww.Proofs.GenTie.Ingress', 'Ww.Proofs.GenTie.Grant'],
+        'gen_sections': HANDLER_SECTIONS + ['Meta', 'pkg/session/data.go', 'Dec/acrValidate', 'pkg/openid/acr/acr.go', 'Dec/sessionCanRefresh', 'Dec/sessionShouldRefresh', 'Dec/sessionYieldsToken', 'Dec/acrValidate', 'pkg/session/session.go'] + PROVIDER_SECTIONS,
         'drivers': [{'name': 'hist'}, {'name': 'meta'}],
         'reasons': ['C01.'],
         'class_fields': _merge(META_CLASS, HIST_CLASS),
@@ -55,7 +57,8 @@ PROPS = {
         'level_text': "Proof: soundness (a token reaches the upstream only for a decryptable ticket whose stored session is live, unexpired, of sufficient ACR, and it is that session's current token, "
                       "also right after an automatic refresh), completeness (such a session always gets its token set, replacing client values) and the no-session corollary are Lean theorems about the "
                       "handler model for EVERY cookie/store state, provider answer, configuration and clock value; the time predicates inside are regenerated from data.go on each run; the hand-written "
-                      "handler model is tied to the real handlers by per-step differential histories in all three modes, and the Spec is evaluated on every implementation step." + HANDLER_TIE,
+                      "handler model is tied to the real handlers by per-step differential histories in all three modes, and the Spec is evaluated on every implementation step." + HANDLER_TIE +
+                      " Client.RefreshGrant and the back-channel POST are translated on every run (Gen/Provider): a refresh answer is accepted on one path only (authenticated POST of the caller's refresh token to the token endpoint, body parsed, access token present); 4xx is a client error, 5xx a server error, a body is handed on only from a non-error answer.",
         'level_note': "Trusted: Lean kernel; AEAD authenticity (a ciphertext that decrypts under a key was produced under it); one clock reading per request; httputil.ReverseProxy header handling "
                       "(exercised with forged / hop-by-hop headers); hand-written model of session_manager/reverseproxy tied only by differential runs.",
         'technique': 'Lean 4 proof over handler model (decision logic) + regenerated time predicates + differential histories',
@@ -81,8 +84,8 @@ PROPS = {
         'assumptions': ["H-AEAD"],
     },
     'C03': {
-        'proofs': ['Ww.Proofs.C03', 'Ww.Proofs.GenTie.C03', 'Ww.Proofs.GenTie.C02'],
-        'gen_sections': HANDLER_SECTIONS + ['Dec/acrValidate', 'pkg/openid/acr/acr.go'],
+        'proofs': ['Ww.Proofs.C03', 'Ww.Proofs.GenTie.C03', 'Ww.Proofs.GenTie.C02', 'Ww.Proofs.GenTie.Tokens'],
+        'gen_sections': HANDLER_SECTIONS + ['Dec/acrValidate', 'pkg/openid/acr/acr.go'] + PROVIDER_SECTIONS,
         'drivers': [{'name': 'c03'}],
         'reasons': ['C03.'],
         'class_fields': {},
@@ -93,15 +96,16 @@ PROPS = {
                 "carries its nonce (accept), another attempt's nonce (reject) or a higher requested level (reject): each decision must be the sequential one, whatever is validated beside it.",
         'level_text': "Proof: acceptIdToken = true implies every listed check (signature under a published key with that key's algorithm, so never none / symmetric-with-public; iss; aud contains client and no untrusted extra; "
                       "exp/iat/nbf within skew; nonce; sub; sid when required; acr present and at least the requested level, with the order substantial <= high and legacy names proved) - for every token, configuration and clock value. "
-                      "The decision model is tied to the real callback (jwx verify/validate included) on the lattice; the Spec is evaluated on 'was a session created'.",
+                      "The decision model is tied to the real callback (jwx verify/validate included) on the lattice; the Spec is evaluated on 'was a session created'." +
+                      " IDToken.Validate, NewTokens and ParseIDToken are translated statement by statement on every run (Gen/Provider) and every ACCEPTING control-flow path is shown to have verified the signature under the key set first, built the validator options once (required iss/sub/aud/exp/iat, issuer, client id audience, THIS cookie's nonce, skew), added 'sid required' iff advertised and 'acr required' iff configured, compared acr with the cookie's level when present, passed jwt.Validate and found no untrusted extra audience; tokens exist only behind Validate(cfg, cookie, jwks).",
         'level_note': "Trusted: Lean kernel; RSA/JWS and the jwx parser and validator (their accept/reject contract is what the lattice differential-tests, incl. alg confusion); the JWKS cache; AcceptableSkew read as 5 s (Gen.Consts). acr.Validate is machine-translated from acr.go on each run and the model's acrAccepts is PROVED equal to it (Ww.Proofs.GenTie.C03).",
         'technique': 'Lean 4 proof of the acceptance decision + really-signed fault lattice through the real callback',
         'trusted': ["H-JWS", "jwx v2.1.4 verify/validate contract (Appendix C)"],
         'assumptions': ["H-JWS"],
     },
     'C05': {
-        'proofs': ['Ww.Proofs.C05', 'Ww.Proofs.GenTie.C07', 'Ww.Proofs.GenTie.Handlers'],
-        'gen_sections': HANDLER_SECTIONS + MANAGER_SECTIONS,
+        'proofs': ['Ww.Proofs.C05', 'Ww.Proofs.GenTie.C07', 'Ww.Proofs.GenTie.Handlers', 'Ww.Proofs.GenTie.LogoutSrc'],
+        'gen_sections': HANDLER_SECTIONS + MANAGER_SECTIONS + PROVIDER_SECTIONS,
         'drivers': [{'name': 'sched'}, {'name': 'hist'}, {'name': 'cook'}, {'name': 'lockwait'}],
         'reasons': ['C05.'],
         'class_fields': _merge(HIST_CLASS, {'sched': ['store', 'procs', 'crash', 'trace', 'statuses', 'exists'], 'jar': ['after', 'status', 'names', 'sso'], 'setcookie': ['op', 'class', 'clear', 'path', 'domain']}),
@@ -110,15 +114,16 @@ PROPS = {
         'rule': SCHED_RULE + " hist driver: every logout variant is followed by a request with the old cookie. cook driver: the jar of an RFC 6265 browser after each logout variant in 8 configurations (ingress with path prefix, SSO domain spellings) - the session cookie must be gone.",
         'level_text': "Proof: in the small-step model (one transition = one store command / lock script / provider call of one process; any number of refreshing, reading and logging-out processes and of new logins landing on the same store key; any schedule; crashes) a deleted "
                       "session entry never becomes readable with the old cookie again (the refresh write-back is update-only-if-present in ONE step, and a new login writes only under the refresh lock, so a write-back cannot land on it), so for every schedule pre ++ [delete of a logout] ++ post nothing the old cookie can read exists at the end and at every later moment; "
-                      "a request that had not reached the provider by then never does. The model is tied to the real handlers step by step by executing explicit schedules on real replicas over one miniredis (pre-hook = scheduling point)." + MANAGER_TIE + HANDLER_TIE,
+                      "a request that had not reached the provider by then never does. The model is tied to the real handlers step by step by executing explicit schedules on real replicas over one miniredis (pre-hook = scheduling point)." + MANAGER_TIE + HANDLER_TIE +
+                      " The logout helpers are translated on every run (Gen/Provider): the logout callback's target is the cookie's redirect only with a logout cookie, matching state and an accepting validator, else the operator's post-logout URI, else the ingress, else '/'; the end-session URL carries this deployment's callback URL and the fresh state; front-channel logout names the session by the sid parameter alone.",
         'level_note': "Trusted: Lean kernel; Redis command atomicity and redislock scripts (through miniredis); one store command is one atomic step (goroutine scheduling inside a command is not observable); cookie clearing is C14.",
         'technique': 'Lean 4 inductive invariant over an interleaving model (unbounded processes and schedule length) + deterministic schedule executor on real replicas',
         'trusted': ["Redis/miniredis command semantics (Appendix C)", "H-AEAD"],
         'assumptions': ["store commands are atomic steps"],
     },
     'C07': {
-        'proofs': ['Ww.Proofs.C07', 'Ww.Proofs.GenTie.C07'],
-        'gen_sections': MANAGER_SECTIONS,
+        'proofs': ['Ww.Proofs.C07', 'Ww.Proofs.GenTie.C07', 'Ww.Proofs.GenTie.Grant'],
+        'gen_sections': MANAGER_SECTIONS + PROVIDER_SECTIONS,
         'drivers': [{'name': 'sched'}, {'name': 'fault', 'timeout': 1500}, {'name': 'hist'}],
         'reasons': ['C07.'],
         'class_fields': _merge(HIST_CLASS, {'sched': ['store', 'procs', 'crash', 'trace', 'statuses', 'exists'], 'fault': ['handler', 'prestate', 'fpos', 'fkind', 'fcount', 'status', 'contacted'], 'faultdry': ['handler', 'prestate']}),
@@ -127,7 +132,8 @@ PROPS = {
         'level_text': "Proof: inductive invariant (7 fields) over the small-step model for any number of processes and any schedule: mutual exclusion between lock and unlock; under the lock the re-read token is the provider's current one; "
                       "hence every presentation is a grant, the presented generations are strictly increasing - no refresh token is presented twice - and the stored pair is the provider's current pair whenever nobody is in the critical section; at most one grant per schedule (one_refresh) and, by a range invariant over every token generation "
                       "in the state, every proxied request hands the upstream the previous or the new token and nothing else (served_previous_or_new), new logins on the same key included. "
-                      "Within the lock lease and crash-free (the property's proviso). Tied step by step on Redis; on the in-memory store the provider log and the statuses are checked by the Spec (the provider call is its only scheduling point)." + MANAGER_TIE,
+                      "Within the lock lease and crash-free (the property's proviso). Tied step by step on Redis; on the in-memory store the provider log and the statuses are checked by the Spec (the provider call is its only scheduling point)." + MANAGER_TIE +
+                      " Client.RefreshGrant and the back-channel POST are translated on every run (Gen/Provider): a refresh answer is accepted on one path only (authenticated POST of the caller's refresh token to the token endpoint, body parsed, access token present); 4xx is a client error, 5xx a server error, a body is handed on only from a non-error answer.",
         'level_note': "Trusted: Lean kernel; redislock obtain/release = SET NX PX / delete-if-token (modelled as one step each, tied by the executor); lease not expiring while held (H-LEASE); the cooldown outlasts a schedule (schedules run in milliseconds).",
         'technique': 'Lean 4 inductive invariant (grind) over an interleaving model + deterministic schedule executor; provider-side presentation log as observation',
         'trusted': ["H-LEASE", "redislock contract"],
@@ -166,8 +172,8 @@ PROPS = {
         'assumptions': ["H-CLOCK", "H-AEAD"],
     },
     'C11': {
-        'proofs': ['Ww.Proofs.C11', 'Ww.Proofs.GenTie.C01', 'Ww.Proofs.GenTie.C07', 'Ww.Proofs.GenTie.Handlers'],
-        'gen_sections': HANDLER_SECTIONS + MANAGER_SECTIONS + ['Meta', 'Dec/sessionCanRefresh', 'Dec/sessionShouldRefresh', 'Dec/sessionYieldsToken', 'Dec/acrValidate', 'pkg/session/session.go'],
+        'proofs': ['Ww.Proofs.C11', 'Ww.Proofs.GenTie.C01', 'Ww.Proofs.GenTie.C07', 'Ww.Proofs.GenTie.Handlers', 'Ww.Proofs.GenTie.Grant'],
+        'gen_sections': HANDLER_SECTIONS + MANAGER_SECTIONS + ['Meta', 'Dec/sessionCanRefresh', 'Dec/sessionShouldRefresh', 'Dec/sessionYieldsToken', 'Dec/acrValidate', 'pkg/session/session.go'] + PROVIDER_SECTIONS,
         'drivers': [{'name': 'fault', 'timeout': 1500}, {'name': 'hist'}],
         'reasons': ['C11.'],
         'class_fields': _merge(HIST_CLASS, {'fault': ['handler', 'prestate', 'fpos', 'fkind', 'fcount', 'status', 'upauth'], 'faultdry': ['handler', 'prestate']}),
@@ -177,7 +183,8 @@ PROPS = {
                 "hist driver: provider answers ok/4xx/5xx/garbage along random histories. distinct = (handler, pre-state, position, fault kind, count, outcome).",
         'level_text': "Proof: with an adversarial fault oracle over lookup, lock, re-read, provider answer, write-back and delete, a token is forwarded only if the session was read (or just granted and stored) and validated in this request and is unexpired; "
                       "an expired token is never forwarded whichever fault prevents the refresh; a 4xx from the provider makes proxied requests go on without token and forward-auth / manual refresh answer 401; a logout whose lookup or delete failed "
-                      "never answers success; without faults the faulty handlers equal the ordinary ones. Retries are modelled as 'fails only if the fault outlasts the budget'; real back-off timing is measured, not modelled." + HANDLER_TIE,
+                      "never answers success; without faults the faulty handlers equal the ordinary ones. Retries are modelled as 'fails only if the fault outlasts the budget'; real back-off timing is measured, not modelled." + HANDLER_TIE +
+                      " Client.RefreshGrant and the back-channel POST are translated on every run (Gen/Provider): a refresh answer is accepted on one path only (authenticated POST of the caller's refresh token to the token endpoint, body parsed, access token present); 4xx is a client error, 5xx a server error, a body is handed on only from a non-error answer.",
         'level_note': "Trusted: Lean kernel; go-retry (Fibonacci 50 ms, 5 s budget) as 'finitely many attempts, success iff one succeeds'; an error from the lock script is not retried (observed, noted in DESIGN); fault = error reply on the replica's connection at a command boundary.",
         'technique': 'Lean 4 proof over the handler model with a fault oracle + fault injection at every store/provider position on real replicas',
         'trusted': ["go-retry contract (Appendix C)", "H-CLOCK"],
@@ -368,8 +375,8 @@ PROPS = {
     },
 
     'C09': {
-        'proofs': ['Ww.Proofs.C09'],
-        'gen_sections': ['Facts'],
+        'proofs': ['Ww.Proofs.C09', 'Ww.Proofs.GenTie.C09'],
+        'gen_sections': ['Facts'] + ENVELOPE_SECTIONS,
         'drivers': [{'name': 'c09'}, {'name': 'cook'}, {'name': 'hist'}],
         'reasons': ['C09.'],
         'class_fields': _merge(HIST_CLASS, {'crypt': ['size'], 'tamper09': ['what', 'variant', 'ep', 'status'], 'relogin09': ['samekey', 'oldopens', 'newopens'], 'cookiedec': ['value'], 'nonces': ['dups'], 'outscan': ['sink', 'kind', 'found'],
@@ -380,15 +387,18 @@ PROPS = {
                 "session's value / flipped / truncated / plaintext JSON, on 4 endpoints. Output monitor (all drivers): every Set-Cookie value and store value is searched for the tokens, verifiers, keys and client credentials the harness knows.",
         'level_text': "PARTIAL (relative to H-AEAD / H-RND). Proved on the symbolic model: a ciphertext opens only under the key it was made with, modified bytes open under no key; session cookie and store value expose nothing to an observer "
                       "without keys; a store value is readable only with the data key inside that user's own cookie, a cookie only with the deployment key, another cookie type's ciphertext is no ticket; whenever cookie or store value does not "
-                      "open, no token reaches the upstream and the session endpoints answer 401 (never 5xx); framing round trip and minimum length; distinct ciphertexts from an injective nonce source. Bit-flip / truncation / swap runs are tests.",
+                      "open, no token reaches the upstream and the session endpoints answer 401 (never 5xx); framing round trip and minimum length; distinct ciphertexts from an injective nonce source. Bit-flip / truncation / swap runs are tests. "
+                      "The shape the symbolic model assumes is decided on the CURRENT source on every run (Gen/Envelope, all control-flow paths): the one path of Encrypt that returns bytes builds the AEAD from the crypter's key, fills a nonce "
+                      "of the AEAD's size from crypto/rand, checks that read and returns Seal(nonce, nonce, plaintext, nil); Decrypt refuses short input, splits at the nonce size and returns Open's verdict unchanged; a cookie value is "
+                      "base64(seal(value)) and opens only through both; the ticket is read from the session cookie with the deployment crypter and its own crypter is made from its own key only; the store value is seal(json(data)) under ticket.Crypter().",
         'level_note': "Trusted: XChaCha20-Poly1305 and crypto/rand (assumptions); Lean kernel; the symbolic abstraction (Blob = sealed term | junk). Known finding F7: legacy-cookie=true puts the raw access token into the selvbetjening-idtoken cookie.",
         'technique': 'Lean 4 proofs over a symbolic (Dolev-Yao) AEAD model joined to the handler model + exhaustive tamper runs and an output monitor on the real code',
         'trusted': ["H-AEAD", "H-RND"],
         'assumptions': ["H-AEAD", "H-RND"],
     },
     'C04': {
-        'proofs': ['Ww.Proofs.C04Lemmas', 'Ww.Proofs.C04', 'Ww.Proofs.C04Abs', 'Ww.Proofs.GenTie.Login', 'Ww.Proofs.GenTie.C04'],
-        'gen_sections': HANDLER_SECTIONS + [],
+        'proofs': ['Ww.Proofs.C04Lemmas', 'Ww.Proofs.C04', 'Ww.Proofs.C04Abs', 'Ww.Proofs.GenTie.Login', 'Ww.Proofs.GenTie.C04', 'Ww.Proofs.GenTie.LogoutSrc'],
+        'gen_sections': HANDLER_SECTIONS + [] + PROVIDER_SECTIONS,
         'drivers': [{'name': 'c04', 'timeout': 6000}],
         'reasons': ['C04.'],
         'class_fields': {'url04': ['ok', 'rok'], 'valid04': ['rel', 'abs', 'regex'], 'canon04': ['mode'], 'redir04': [], 'esc04': ['pathunescok', 'queryunescok'], 'whatwg04': ['expect'],
@@ -402,7 +412,8 @@ PROPS = {
                 "(and the redirect parameter an SSO proxy hands on) is judged by the browser model. distinct = (line kind, outcome fields); non-trivial = a string Go's parser accepts / a validator accepts / any emitted Location.",
         'level_text': "Proof (standalone chain) + PARTIAL (absolute modes). Proved for EVERY redirect-parameter string, request path and base scheme: the value StandaloneRedirect.Canonical returns, re-validated after the cookie round trip and "
                       "rewritten by http.Redirect, is a Location the browser model resolves inside the request's origin (relValid_shape, cleared_no_backslash, httpRedirect_safe, browse_safeLoc, standalone_redirect_stays). "
-                      "The proof shows why the validator alone is not enough (it accepts a raw /\\evil.com) and that safety rests on validating only URL.String() output. SSO-server / SSO-proxy: model + differential + Spec on every Location.",
+                      "The proof shows why the validator alone is not enough (it accepts a raw /\\evil.com) and that safety rests on validating only URL.String() output. SSO-server / SSO-proxy: model + differential + Spec on every Location." +
+                      " The logout helpers are translated on every run (Gen/Provider): the logout callback's target is the cookie's redirect only with a logout cookie, matching state and an accepting validator, else the operator's post-logout URI, else the ingress, else '/'; the end-session URL carries this deployment's callback URL and the fresh state; front-channel logout names the session by the sid parameter alone.",
         'level_note': "Trusted: Lean kernel; the model of net/url, path.Clean and http.Redirect (tied field by field on every run); the browser model (digest of the WHATWG URL parser; no browser in the sandbox; checked against a hand-kept table "
                       "of 147 expectations; UTS-46 host mapping not modelled); AEAD authenticity of the login/logout cookie (C09).",
         'technique': 'Lean 4 proof over a functional model of net/url + validators + http.Redirect + a WHATWG browser model, tied by differential runs at function level and judged on every real Location at HTTP level',
